@@ -517,7 +517,43 @@ fn sentinel_case() -> BoxedStrategy<(Plan, Vec<(u32, u8)>)> {
 /// as 0, 1, 50; flags flipped; strings emptied; arrays emptied), and whatever still loads as a model must
 /// survive its own round trip field by field and serialise twice to the same text.
 fn check_sentinels(h: &CaseH, c: &(Plan, Vec<(u32, u8)>)) -> Verdict {
-    let m0 = model::build(&c.0);
+    let mut m0 = model::build(&c.0);
+    // the diagnostics list of the export tool: absent, empty, or with entries
+    match c.1[0].1 % 4 {
+        0 => m0.extra = Some(vec![]),
+        1 => {
+            m0.extra = Some(
+                m0.walls
+                    .iter()
+                    .take(2)
+                    .map(|w| bemodel::ExtraData {
+                        name: w.name.clone(),
+                        bounds: w.bounds,
+                        spacetype: SpaceType::CONDITIONED,
+                        nextspace: w.next_to,
+                        nextspacetype: w.next_to.map(|_| SpaceType::UNINHABITED),
+                        tilt: bemodel::Tilt::from(w.geometry.tilt),
+                        cons: w.cons,
+                        u: 0.5,
+                        computed_u: 0.45,
+                    })
+                    .collect(),
+            )
+        }
+        _ => {}
+    }
+    // the unedited model first (an empty diagnostics list is a value of its own)
+    {
+        let j = m0.as_json().unwrap_or_default();
+        match Model::from_json(&j) {
+            Ok(back) => {
+                if let Err(d) = same_model(&m0, &back) {
+                    vfail!("C04:sentinel:roundtrip-differs", "model with extra = {:?} entries does not survive its round trip: {}", m0.extra.as_ref().map(|e| e.len()), d);
+                }
+            }
+            Err(e) => vfail!("C04:sentinel:load-error", "serialised model does not load back: {}", e),
+        }
+    }
     let mut v = match serde_json::to_value(&m0) {
         Ok(v) => v,
         Err(_) => return Verdict::Pass,
@@ -1280,6 +1316,42 @@ fn check_purge(h: &CaseH, c: &(Plan, u8, bool)) -> Verdict {
             h.class("orphaned-space");
         }
     }
+    // ids are unique within each collection only: one model in four numbers its schedules per list, so that
+    // year i, week i and day i carry the same id (what name-derived or counter ids give)
+    if c.0.salt % 4 == 0 {
+        let ny = m.schedules.year.len();
+        for i in 0..m.schedules.week.len().min(ny) {
+            let (old, new) = (m.schedules.week[i].id, m.schedules.year[i].id);
+            if m.schedules.week.iter().any(|w| w.id == new) {
+                continue;
+            }
+            m.schedules.week[i].id = new;
+            for y in &mut m.schedules.year {
+                for v in &mut y.values {
+                    if v.0 == old {
+                        v.0 = new;
+                    }
+                }
+            }
+        }
+        for i in 0..m.schedules.day.len().min(ny) {
+            let (old, new) = (m.schedules.day[i].id, m.schedules.year[i].id);
+            if m.schedules.day.iter().any(|d| d.id == new) {
+                continue;
+            }
+            m.schedules.day[i].id = new;
+            for w in &mut m.schedules.week {
+                for v in &mut w.values {
+                    if v.0 == old {
+                        v.0 = new;
+                    }
+                }
+            }
+        }
+        if ny > 0 {
+            h.class("ids-shared-across-schedule-levels");
+        }
+    }
     let v = check_purge_model(h, &m, c.2);
     h.sample(|| json!({"spaces": m.spaces.len(), "walls": m.walls.len(), "loads": m.loads.len(), "years": m.schedules.year.len(), "weeks": m.schedules.week.len(), "days": m.schedules.day.len(), "mask": c.1}));
     v
@@ -1287,7 +1359,7 @@ fn check_purge(h: &CaseH, c: &(Plan, u8, bool)) -> Verdict {
 
 pub fn run_c16(args: &Args) -> ! {
     let ctx = Ctx::new("C16", "exploration", args);
-    ctx.rule("generated models with unused items of every kind (libraries larger than what is used, spaces orphaned by a generated mask so that their private loads/schedule chains fall in the same call, bridges of length 0 / -0.0 / non-zero, shared constructions and schedules), closed and open, plus shipped models; oracle: reachability computed by the harness on the original model must equal the purged collections exactly and in order; remaining items unchanged; purge o purge = purge; no new broken link; A_ref, volumes, K, n50, q_sol;jul unchanged. Non-trivial: items removed in >= 4 kinds including the whole loads/year/week/day chain.");
+    ctx.rule("generated models with unused items of every kind (libraries larger than what is used, spaces orphaned by a generated mask so that their private loads/schedule chains fall in the same call, bridges of length 0 / -0.0 / non-zero, shared constructions and schedules, one model in four with ids shared across the year / week / day lists), closed and open, plus shipped models; oracle: reachability computed by the harness on the original model must equal the purged collections exactly and in order; remaining items unchanged; purge o purge = purge; no new broken link; A_ref, volumes, K, n50, q_sol;jul unchanged. Non-trivial: items removed in >= 4 kinds including the whole loads/year/week/day chain.");
     ctx.replay_regressions(replay_one);
     let real = shipped_models();
     ctx.run_enum("shipped", &real.iter().map(|(n, _)| n.clone()).collect::<Vec<_>>(), true, |h, name| {
@@ -1296,7 +1368,7 @@ pub fn run_c16(args: &Args) -> ! {
         check_purge_model(h, m, true)
     });
     ctx.run_prop("generated", ctx.tier().pick(100_000, 1_000_000), purge_case, check_purge);
-    for c in ["generated/orphaned-space", "generated/space-referenced-only-by-next_to", "generated/removed/spaces", "generated/removed/thermal_bridges", "generated/removed/wallcons", "generated/removed/wincons", "generated/removed/materials", "generated/removed/glasses", "generated/removed/frames", "generated/removed/loads", "generated/removed/thermostats", "generated/removed/year", "generated/removed/week", "generated/removed/day", "generated/with-indicators"] {
+    for c in ["generated/orphaned-space", "generated/space-referenced-only-by-next_to", "generated/removed/spaces", "generated/removed/thermal_bridges", "generated/removed/wallcons", "generated/removed/wincons", "generated/removed/materials", "generated/removed/glasses", "generated/removed/frames", "generated/removed/loads", "generated/removed/thermostats", "generated/removed/year", "generated/removed/week", "generated/removed/day", "generated/with-indicators", "generated/ids-shared-across-schedule-levels"] {
         ctx.require_class(c);
     }
     if ctx.tier() == crate::engine::Tier::Thorough {
